@@ -189,9 +189,10 @@ func (f *File) MatchC17(class, msg, point string) string {
 	for _, k := range f.active("C17") {
 		switch k.Trigger {
 		case "session-history-shared-generic-package":
-			// F3: a main package built after ANOTHER main package of the same module that shares a generic
-			// package with it (point "<prog>:cmd/x:min=..:hist:N" whose history names a sibling main)
-			if (class == "output-depends-on-history" || class == "build-fails-history" || class == "map-depends-on-history") && strings.Contains(point, ":cmd/") && strings.Contains(msg, "history [cmd/") {
+			// F3: a main package built after ANOTHER main package of the same module that shares a GENERIC
+			// package with it, instantiated differently (corpus programs "progNNN" with mains cmd/a, cmd/b; the
+			// "plainNNN" programs share a non-generic library and are never attributed)
+			if (class == "output-depends-on-history" || class == "build-fails-history" || class == "map-depends-on-history") && strings.HasPrefix(point, "prog") && strings.Contains(point, ":cmd/") && strings.Contains(msg, "history [cmd/") {
 				return k.ID
 			}
 		}
